@@ -27,3 +27,7 @@ def focus(c):
 
 def run(chk):
     relrun.standard(chk, relevant, signature, focus=focus)
+
+
+def replay(chk, path):
+    return relrun.replay_file(chk, path, relevant, signature)
